@@ -29,7 +29,7 @@ use uhlc::NTP64;
 use crate::{
     actor::{Actor, ActorId, ClusterId},
     agent::Agent,
-    base::{CrsqlDbVersion, CrsqlSeq},
+    base::{CrsqlDbVersion, CrsqlSeq, MAX_DECODE_PREALLOC},
     change::{Change, ChunkedChanges, MAX_CHANGES_BYTE_SIZE, row_to_change},
     channel::CorroSender,
     sqlite::SqlitePoolError,
@@ -314,7 +314,7 @@ where
             }
             2 => {
                 let versions_len = usize::read_from(reader)?;
-                let mut versions = Vec::with_capacity(versions_len);
+                let mut versions = Vec::with_capacity(versions_len.min(MAX_DECODE_PREALLOC));
                 for _ in 0..versions_len {
                     let start = CrsqlDbVersion::read_from(reader)?;
                     let end = CrsqlDbVersion::read_from(reader)?;
